@@ -131,6 +131,20 @@ theorem legacy_derived_valid (epk a : Bytes) (hlen : (sha256 epk).length = 32)
       rw [this]; exact hfmt0
     · rw [List.drop_left' hbl, List.take_left' hbl]
 
+/-- the checksum is determined by the first 35 bytes: two accepted legacy addresses that agree there are equal, so a
+change confined to the checksum bytes (any one of them, any value) is always refused -/
+theorem legacy_checksum_unique (a b : Bytes) (ha : isValidLegacyAddress sha256 a = true)
+    (hb : isValidLegacyAddress sha256 b = true) (h : a.take 35 = b.take 35) : a = b := by
+  rw [legacy_valid_iff] at ha hb
+  have hd : a.drop 35 = b.drop 35 := by rw [ha.2, hb.2, h]
+  rw [← List.take_append_drop 35 a, ← List.take_append_drop 35 b, h, hd]
+
+theorem legacy_checksum_change_refused (a b : Bytes) (ha : isValidLegacyAddress sha256 a = true)
+    (h : a.take 35 = b.take 35) (hne : a ≠ b) : isValidLegacyAddress sha256 b = false := by
+  cases hb : isValidLegacyAddress sha256 b with
+  | false => rfl
+  | true => exact absurd (legacy_checksum_unique sha256 a b ha hb h) hne
+
 end
 
 -- non-vacuity: concrete descriptors meet the hypotheses
